@@ -11,7 +11,7 @@ namespace xs {
 
 SchedRecord* SR = nullptr;
 bool g_monitor_tables = false;
-uint64_t g_event_cap = 2000000;
+uint64_t g_event_cap = 60000000;
 
 struct Task {
   int id = 0;
@@ -115,6 +115,7 @@ static void switch_to(int to, const char* reason) {
   g_cur = to;
   sem_post(&nx->sem);
   sem_wait(&me->sem);
+  publish_ctx(&me->ctx);
 }
 
 static int pick_other(int cur) {
@@ -187,6 +188,7 @@ static void* thread_main(void* arg) {
   set_task_stack(&t->ctx);
   t_task = &t->ctx;
   sem_wait(&t->sem);
+  publish_ctx(&t->ctx);
   (*t->body)();
   t->finished = true;
   logf("T t%d finished events=%llu", t->id, (unsigned long long)t->ctx.events);
@@ -229,7 +231,9 @@ void run_tasks(const SchedCfg& cfg, std::vector<std::function<void()>>& bodies) 
   for (int i = 0; i < n; i++) {
     Task* t = new Task();
     t->id = i;
+    t->ctx = TaskCtx();
     t->ctx.id = i;
+    t->ctx.events = 0;
     sem_init(&t->sem, 0, 0);
     t->vc[i] = 1;
     t->body = &bodies[i];
